@@ -313,9 +313,14 @@ def _build(spec):
         for j in range(nfreq):
             w = float(np.round(rng.uniform(95, 120), 1))
             shift = rng.uniform(-15, 15, 3).round(1)
-            h = np.ones(8)*w
+            # different numbers of cells per task (as frequency- or source-
+            # dependent automatic gridding produces), in no particular order
+            ncell = [int(rng.choice([8, 8, 12, 16])), 8,
+                     int(rng.choice([8, 8, 12]))]
             tgrids[(i, j)] = emg3d.TensorMesh(
-                [h, h, h], origin=tuple(float(-4*w + s) for s in shift))
+                [np.ones(n)*w for n in ncell],
+                origin=tuple(float(-n/2*w + s)
+                             for n, s in zip(ncell, shift)))
 
     if spec['solver'] == 'plain':
         sopts = {'plain': True, 'tol': 1e-3}
